@@ -4,6 +4,7 @@ package simapp
 // Everything here goes through the modules' own genesis / Msg servers; nothing of orbiter is mocked.
 
 import (
+	"math/big"
 	"encoding/hex"
 	"encoding/json"
 	"fmt"
@@ -48,6 +49,7 @@ const (
 	denomOTH  = "uother"
 	denomIGP  = "uigp"
 	denomBIG  = "ubig"
+	denomBIG2 = "uwide" // an 18-decimal style denomination: large amounts held by an ordinary account too (2^199 each)
 	burnLimit = 1_000_000
 )
 
@@ -120,12 +122,14 @@ func NewWorld() (*World, error) {
 	alicePriv := secp256k1.GenPrivKeyFromSecret([]byte("alice"))
 	acc := authtypes.NewBaseAccount(w.Alice, alicePriv.PubKey(), 0, 0)
 	big256, _ := math.NewIntFromString(maxUint256Str)
+	wide199 := math.NewIntFromBigInt(new(big.Int).Lsh(big.NewInt(1), 199))
 	bals := []banktypes.Balance{
 		{Address: w.Alice.String(), Coins: sdk.NewCoins(
 			sdk.NewCoin(sdk.DefaultBondDenom, math.NewInt(100_000_000_000_000)),
 			sdk.NewCoin(denomUSDC, math.NewInt(1_000_000_000_000)),
 			sdk.NewCoin(denomOTH, math.NewInt(1_000_000_000_000)),
 			sdk.NewCoin(denomIGP, math.NewInt(1_000_000_000_000)),
+			sdk.NewCoin(denomBIG2, wide199),
 		)},
 	}
 	for _, e := range []sdk.AccAddress{w.Escrow0, w.Escrow1} {
@@ -138,6 +142,7 @@ func NewWorld() (*World, error) {
 			// a VOUCHER held on Noble (hash of a longer trace) that Noble once sent out over this channel: a counterparty
 			// that names it by its hash instead of its full trace makes ICS-20 release it (C16)
 			sdk.NewCoin(denomHashedVoucher, math.NewInt(1_000_000_000)),
+			sdk.NewCoin(denomBIG2, wide199),
 		)
 		if e.Equals(w.Escrow0) {
 			coins = coins.Add(sdk.NewCoin(denomBIG, big256))
